@@ -31,6 +31,11 @@ def gen(rng):
         s = netgen.gen_heat_tree(rng)
     else:
         s = netgen.gen_heat_loop(rng)
+    if 0.6 <= r < 0.8 and rng.random() < 0.25:
+        # a second temperature-fixing grid at lower pressure that takes up flow, solved together with the hydraulics: pandapipes
+        # cannot set up this thermal system and must say so; if a calculation returns, its result must not depend on the start values
+        s["ext_grids"].append({"junction": len(s["junctions"]) - 1, "p_bar": 5.2, "t_k": 320.0, "type": "pt", "in_service": True})
+        s["options"]["mode"] = "bidirectional"
     if r >= 0.6 and rng.random() < 0.35:
         netgen.add_thermal_island(rng, s)
         if rng.random() < 0.6:
